@@ -106,6 +106,16 @@ fn drive(seed: u64, zst_first: bool, never_alloc: bool, steps: usize) -> Vec<(u8
         let e1 = b.alloc_try_with(|| -> Result<std::convert::Infallible, ()> { Err(()) }).is_err();
         let e2 = b.try_alloc_try_with(|| -> Result<std::convert::Infallible, ()> { Err(()) }).is_err();
         let _ = b.alloc_try_with(|| -> Result<(), std::convert::Infallible> { Ok(()) });
+        // zero-sized results whose alignment exceeds the arena's minimum alignment
+        #[derive(Debug)]
+        #[repr(align(16))]
+        struct Z16;
+        let e3 = b.alloc_try_with(|| -> Result<std::convert::Infallible, [u64; 0]> { Err([]) }).is_err();
+        let e4 = b.try_alloc_try_with(|| -> Result<std::convert::Infallible, Z16> { Err(Z16) }).is_err();
+        let e5 = b.alloc_try_with(|| -> Result<std::convert::Infallible, Z16> { Err(Z16) }).is_err();
+        let _ = b.try_alloc_try_with(|| -> Result<[u32; 0], std::convert::Infallible> { Ok([]) });
+        let _ = b.alloc_slice_try_fill_with::<[u64; 0], _, Z16>(2, |i| if i == 1 { Err(Z16) } else { Ok([]) });
+        sum = sum.wrapping_add(e3 as u64 + e4 as u64 + e5 as u64);
         let _: &mut [()] = b.alloc_slice_fill_with(3, |_| ());
         let _ = b.alloc_slice_try_fill_with::<(), _, ()>(2, |i| if i == 1 { Err(()) } else { Ok(()) });
         let _: &mut [u64] = b.alloc_slice_fill_default(0);
